@@ -1354,6 +1354,38 @@ def value_read_one_guard(ctx, p, callers=None):
     ctx.ob(p + 'b value-read-sites', 'anchor', '-', 'the value read call sites that are handed the log overlay were found', n >= 1, 'found %d' % n)
 
 
+def no_log_handle_destroyed_in_cleanup(ctx, p):
+    """Every log file taken off the cleanup queue ends up in the pool (truncated) or back on the queue (not truncated). A handle that is
+    simply dropped leaves its file on disk - full of enacted records - outside every queue: later cleanups truncate the newer logs and
+    the next open replays the stale one. Structurally: in Log::clean_logs and its helpers no value of type File / (id, File) is
+    destroyed by an (implicit) drop on a normal path; the explicit drop of pool surplus is followed by the unlink of that log."""
+    F = ctx.F
+    b = ctx.body('log::Log::clean_logs')
+    if not b:
+        return
+    bad = []
+    n = 0
+    for fb in lib.family(F, b.path):
+        for bi in fb.normal_blocks():
+            t = fb.term(bi)
+            if t['k'] == 'drop':
+                ty = str(t.get('ty', ''))
+                n += 1
+                if re.fullmatch(r'(std::fs::File|\(u32, std::fs::File\))', ty):
+                    # drop flags: a drop of a local that was moved out on every path is dead; keep only drops the value can reach -
+                    # i.e. the local is not moved into a call / aggregate on all paths from its definition
+                    l = t['p'][0] if t.get('p') else None
+                    moves = [x for x in fb.normal_blocks() if (fb.term(x)['k'] == 'call' and any(a.get('o') == 'm' and op_place(a) == [l] for a in fb.term(x)['a']))
+                             or any(st['k'] == 'assign' and any(a.get('o') == 'm' and op_place(a) == [l] for a in st['r'].get('a', [])) for st in fb.blocks[x]['s'])]
+                    defs = [d[0] for d in fb.defs().get(l, [])]
+                    live = any(fb.find_path([d], {bi}, removed=set(moves)) is not None for d in defs) if defs else True
+                    if live:
+                        bad.append('%s: %s dropped at %s' % (fb.path, ty, fb.loc(bi)))
+    ctx.ob(p + 'r no-log-handle-destroyed-in-cleanup', 'K4-confinement', b.path,
+           'no log file handle (or queue entry) is destroyed by an implicit drop in clean_logs: what was taken off the cleanup queue goes to the pool or back onto the queue',
+           not bad, '; '.join(bad[:3]))
+
+
 def torn_record_not_handed_over(ctx, p):
     """Log::end_record appends a record to the log file being written. If the write fails part-way the file ends in a torn record.
     The stage that applies records during a session does not validate them (no CRC check: that is done at open only), so the file
